@@ -64,6 +64,9 @@ def alpha(text: str, cuts: Iterable[int] = ()) -> List[Tok]:
         i = end
     if ws is not None:
         toks.append(Tok("W", ws, n))
+    for t in toks:
+        if t.k == "W" and t.e - t.s == 1 and text[t.s] == "#":
+            t.k = "H"
     cs = sorted(set(c for c in cuts if 0 < c < n))
     if cs:
         out: List[Tok] = []
@@ -121,16 +124,16 @@ def crosscheck_regex(text: str, toks: Sequence[Tok]) -> Optional[str]:
 # gamma: abstract names of MC_Splitter -> text
 # ---------------------------------------------------------------------------
 NAME_OF_W = {10: "ATE", 11: "ATC", 12: "ATP", 13: "ATS", 1: "LB", 2: "RB", 3: "QT", 4: "CM", 5: "EQ", 6: "NL",
-             7: "SP", 8: "ESC", 21: "W1", 22: "W2", 23: "WB", 24: "WA"}
+             7: "SP", 8: "ESC", 9: "HASH", 21: "W1", 22: "W2", 23: "WB", 24: "WA"}
 KIND_OF_NAME = {"ATE": "ATE", "ATC": "ATC", "ATP": "ATP", "ATS": "ATS", "LB": "LB", "RB": "RB", "QT": "QT",
-                "CM": "CM", "EQ": "EQ", "NL": "NL", "SP": "SP", "ESC": "ESC", "W1": "W", "W2": "W", "WB": "W", "WA": "W"}
+                "CM": "CM", "EQ": "EQ", "NL": "NL", "SP": "SP", "ESC": "ESC", "HASH": "H", "W1": "W", "W2": "W", "WB": "W", "WA": "W"}
 ATE_SPELL = ["@a", "@Article", "@book ", "@x1\t", "@commentary", "@stringent", "@Preambles", "@é", "@"]
 ATC_SPELL = ["@comment", "@Comment", "@COMMENT "]
 ATP_SPELL = ["@preamble", "@Preamble\t"]
 ATS_SPELL = ["@string", "@String ", "@STRING"]
 SP_SPELL = [" ", "\t", "  ", "\r", " "]
 ESC_SPELL = ["\\{", "\\}", '\\"', "\\,", "\\="]
-W_SPELL = ["x", "k1", "é", "12", "#", "a.b", "%", "-"]
+W_SPELL = ["x", "k1", "é", "12", "a#b", "a.b", "%", "-"]
 WA_SPELL = ["@", "@foo", "a@b"]
 
 
@@ -154,7 +157,7 @@ def gamma(names: Sequence[str], rnd: random.Random, variant: int = 0) -> Tuple[s
         elif nm == "ATS":
             s = "@string" if variant == 0 else rnd.choice(ATS_SPELL)
         else:
-            s = {"LB": "{", "RB": "}", "QT": '"', "CM": ",", "EQ": "=", "NL": "\n", "SP": sp, "ESC": esc,
+            s = {"LB": "{", "RB": "}", "QT": '"', "CM": ",", "EQ": "=", "NL": "\n", "SP": sp, "ESC": esc, "HASH": "#",
                  "W1": w1, "W2": w2, "WB": "\\", "WA": wa}[nm]
         out.append(s)
         spans.append((pos, pos + len(s)))
